@@ -25,7 +25,8 @@ def static_structure(prog):
             head[f.gid] = [x.gid for x in f.head]
             owner[f.gid] = F.idx
             for aux in f.condauxes:
-                cond.append((f.gid, aux.idx))
+                if aux not in f.auxes:          # (an aux that is also a plain aux of the frame runs as a plain one)
+                    cond.append((f.gid, aux.idx))
     return outline, head, owner, cond
 
 
@@ -48,8 +49,8 @@ class CHECK(FloCheck):
                "well-formedness `WF` of a program (acyclic auxiliary references, one clause per auxiliary, `done me` only, "
                "outlines from a forest) is a hypothesis of the theorems; the generator keeps auxiliary references acyclic "
                "but does share auxiliaries between clauses — those runs are covered by the correspondence and the oracle "
-               "only (they need fixes/D3b-… and fixes/D3d-…; the frame naming one auxiliary both plain and conditional is "
-               "known finding D3e)"]
+               "only (they rely on the fix commits D3b, D3d and D3e: a conditional clause for an auxiliary that is also a plain "
+               "auxiliary of the same frame does nothing)"]
     PARTIAL = ["C05_step_partial / C05_tick_partial / C05_reachable_partial: hypothesis `bad = false` (no Suspender "
                "truncated while another conditional auxiliary of the same framer was running; no enterAll on a still "
                "active framer); the full statement is refuted by C05_counterexample_D3 (known finding D3)",
@@ -91,7 +92,7 @@ class CHECK(FloCheck):
         return self._strip(floeng.model_lines(replies[0], self.WANT))
 
     def oracle(self, case, out):
-        prog = case["prog"]
+        prog = floeng.expand(case["prog"])      # named clones as explicit non-original auxiliaries
         outline, head, owner, cond = static_structure(prog)
         tk = set(floeng.taskables(prog))
         for line in out:
